@@ -106,6 +106,10 @@ type opD struct {
 	puts   []putD
 	dels   []delD
 	ranges []rangeD
+	// refused: the request ends with a sequential put that has no partition key. It is refused as a whole at
+	// apply time, after the operations before it were processed: nothing of it may remain, not even in the
+	// version-id counter
+	refused bool
 }
 
 func (o opD) String() string {
@@ -119,8 +123,13 @@ func (o opD) String() string {
 	for _, x := range o.ranges {
 		p = append(p, fmt.Sprintf("range[%s,%s)", x.start, x.end))
 	}
+	if o.refused {
+		p = append(p, "seqput-without-partition-key")
+	}
 	return strings.Join(p, "+")
 }
+
+func (o opD) thenRefused() opD { o.refused = true; return o }
 
 func P(k string, c cond) opD { return opD{puts: []putD{{k, c}}} }
 func D(k string, c cond) opD { return opD{dels: []delD{{k, c}}} }
@@ -407,6 +416,9 @@ func (in *inst) applyOp(o opD) (bool, *ev.Violation) {
 	for _, r := range o.ranges {
 		req.DeleteRanges = append(req.DeleteRanges, &proto.DeleteRangeRequest{StartInclusive: r.start, EndExclusive: r.end})
 	}
+	if o.refused {
+		req.Puts = append(req.Puts, &proto.PutRequest{Key: "s", Value: []byte("never"), SequenceKeyDelta: []uint64{1}})
+	}
 	// keep what the model needs: ProcessWrite may modify the request
 	type pin struct {
 		key, val string
@@ -418,6 +430,13 @@ func (in *inst) applyOp(o opD) (bool, *ev.Violation) {
 	}
 	resp, err := in.db.ProcessWrite(req, in.off, uint64(1000+in.off), server.WrapperUpdateOperationCallback)
 	in.off++
+	if o.refused {
+		if err == nil || !kv.IsInvalidRequestError(err) {
+			return true, viol("invalid-request-not-refused", fmt.Sprintf("%s: %v", o, err))
+		}
+		// no trace: the state oracle (records, versions, counter through the next puts) decides
+		return true, in.checkState("after the refused request " + o.String())
+	}
 	if err != nil {
 		return true, viol("process-write-error", fmt.Sprintf("%s: %v", o, err))
 	}
@@ -726,6 +745,9 @@ func buildConfigs(tier string) []*config {
 		}
 		return o
 	}()...), curated()...)
+	// requests refused as a whole after some of their operations were processed (one of them already rejected
+	// with a status, one accepted)
+	base = append(base, P("a", cStale).and(P("b", cNone)).thenRefused(), P("a", cNotExists).thenRefused(), D("a", cStale).and(P("b", cNone)).thenRefused())
 	full := append(append([]opD{}, base...), crossProduct()...)
 	quick := tier != "thorough"
 	var cfgs []*config
